@@ -26,7 +26,7 @@ def _compile(entry):
            "len": api.L, "isinstance": isinstance, "bytes": bytes, "str": str, "int": int, "tuple": tuple,
            "any": any, "all": all, "list": list, "set": set, "sorted": sorted, "min": min, "max": max}
     code = compile(entry["region"], "<known-finding %s>" % entry.get("id"), "eval")
-    return lambda i: eval(code, env, {"i": i, "case": i})
+    return lambda i, what="": eval(code, env, {"i": i, "case": i, "what": what})
 
 
 def for_obligation_prefix(contract_name):
